@@ -31,6 +31,18 @@ def host_raise_type(*args):
     raise TypeError("host raises")
 
 
+def host_raise_type_bare(*args):
+    raise TypeError
+
+
+def host_raise_value_bare(*args):
+    raise ValueError()
+
+
+def host_raise_value_args(*args):
+    raise ValueError(7, None, ("x",))
+
+
 def size(*args):
     from celpy import celtypes as ct
     return ct.IntType(4242)
@@ -171,7 +183,8 @@ def shadow(runner, vals):
     return True, "ok"
 
 
-ERR_FUNCS = {"returns-error": host_err, "raises-ValueError": host_raise_value, "raises-TypeError": host_raise_type}
+ERR_FUNCS = {"returns-error": host_err, "raises-ValueError": host_raise_value, "raises-TypeError": host_raise_type,
+             "raises-bare-TypeError": host_raise_type_bare, "raises-bare-ValueError": host_raise_value_bare, "raises-ValueError-nontext-args": host_raise_value_args}
 ERR_CTX = {"f(a) > 0 || true": True, "true || f(a) > 0": True, "f(a) > 0 && false": False, "false && f(a) > 0": False,
            "true ? 7 : f(a)": 7, "f(a)": "error", "f(a) > 0 || false": "error", "a.f() > 0 || true": True,
            "a.f(1) > 0 || true": True, "a.f(2.5, [a]) > 0 || true": True, "a.f('s')": "error", "f(a, 1, 'x') > 0 || true": True, "[a].f(a) == 1 && false": False,
